@@ -107,6 +107,9 @@ type handOpts struct {
 	BigChunks bool
 	// NoFileSizeOK: interior nodes may omit FileSize (it is optional) while keeping their BlockSizes
 	NoFileSizeOK bool
+	// RawOldStyle: nodes whose children are all raw leaves may omit BlockSizes - the link's Tsize is the size of a raw leaf,
+	// so nothing has to be opened to learn it (unlike old-style nodes over dag-pb children)
+	RawOldStyle bool
 }
 
 func genHandFileOpt(t *rapid.T, o handOpts) (root *mnode, data []byte, writer, desc string) {
@@ -134,6 +137,7 @@ func genHandFileOpt(t *rapid.T, o handOpts) (root *mnode, data []byte, writer, d
 	tsizeStyle := rapid.SampledFrom([]int{0, 0, 1, 2, 3}).Draw(t, "tsizeStyle")
 	spareBlockSize := o.SpareBlockSize && rapid.IntRange(0, 3).Draw(t, "spareBlockSize") == 0
 	oldStyleMixed := false
+	rawNoBlockSizes := o.RawOldStyle && !pbLeaves && rapid.IntRange(0, 1).Draw(t, "rawNoBlockSizes") == 0
 	var chunks [][]byte
 	pattern := ""
 	big := o.BigChunks && rapid.IntRange(0, 5).Draw(t, "bigChunks") == 0
@@ -170,6 +174,13 @@ func genHandFileOpt(t *rapid.T, o handOpts) (root *mnode, data []byte, writer, d
 		if mixed {
 			noBlockSizes, noFileSize = rapid.Bool().Draw(t, "nodeNoBlockSizes"), rapid.Bool().Draw(t, "nodeNoFileSize")
 			oldStyleMixed = oldStyleMixed || noBlockSizes
+		}
+		if rawNoBlockSizes {
+			allRaw := true
+			for _, k := range kids {
+				allRaw = allRaw && k.IsRaw
+			}
+			noBlockSizes = noBlockSizes || allRaw
 		}
 		tot := uint64(0)
 		for i, k := range kids {
@@ -219,6 +230,7 @@ func genHandFileOpt(t *rapid.T, o handOpts) (root *mnode, data []byte, writer, d
 	if mixed {
 		noBlockSizes = oldStyleMixed // (for the labels below: "some node lacks BlockSizes")
 	}
+	noBlockSizes = noBlockSizes || rawNoBlockSizes
 	writer = fmt.Sprintf("hand-%s-pb=%v-l%d-bs=%v-fs=%v-raw=%d-ts=%d-spare=%v-mixed=%v", pattern, pbLeaves, levels, !noBlockSizes, !noFileSize, rawTyped, tsizeStyle, spareBlockSize, mixed)
 	desc = fmt.Sprintf("hand-made file chunks=%s (0 = empty) pbLeaves=%v levels=%d blocksizes=%v filesize=%v rawTyped=%d (0 none, 1 root, 2 interior, 3 leaves, 4 all) tsizeStyle=%d (0 content, 1 cumulative, 2 block-local, 3 absent) spareBlockSize=%v len=%d", pattern, pbLeaves, levels, !noBlockSizes, !noFileSize, rawTyped, tsizeStyle, spareBlockSize, len(data))
 	return
